@@ -31,6 +31,25 @@ and the package's READERS of a collection, which must leave it exactly as it is 
   * `quant v` — `quant.maxquant.add_precursor_quants` on a rendered evidence file;
   the evidence is generated from the CURRENT groups of the collection (`gen_evidence`), `v = 0` gives only the first
   member of each group a peptide of its own.
+and the package's LOOKUP CALLERS — functions outside protein_groups.py that are handed a collection and a file of
+external rows and look the proteins of every row up (model: `Op.rows caller rows`, answer `callerAnswer`); each call
+renders its small input file(s) in a scratch directory of the history and runs the real function on the live collection:
+  * `psm_update rows v` — `pipeline.update_fragpipe_results.update_fragpipe_psm_file` on a psm.tsv (v bit 0: in place /
+    output folder); observed: which PSM rows are written and with which leading protein;
+  * `fp_quant` / `fp_ion` — `quant.fragpipe.add_precursor_quants` (psm.tsv; v bit 1: through
+    `add_precursor_quants_multiple`) and `update_precursor_quants_single` (combined_ion.tsv; v bit 1: through
+    `update_precursor_quants`); `sage_quant` / `sage_lfq` — `quant.sage.add_precursor_quants` (results.sage.tsv) and
+    `update_precursor_quants_single` (lfq.tsv; v bit 1: through `update_precursor_quants`); `mq_quant` —
+    `quant.maxquant.add_precursor_quants` (evidence.txt; the parser first drops decoy proteins from rows with a target
+    protein: the model and the oracle get the rows AFTER that filter, `_mq_effective`); `collect_rows` —
+    `ProteinScoringStrategy("bestPEP").collect_peptide_scores_per_protein`; observed: the result row(s) / info list(s)
+    each row's peptide was attached to;
+  * `annot rows v` — `columns.FragpipeProteinAnnotationsColumns(pg, {}).append_columns` over result rows whose
+    `proteinIds` are the rows; observed: the annotated leading protein of each row (the code takes the first of a list
+    built from a Python set: the model lists the admissible leaders and `model_view` resolves the choice to the
+    implementation's when it is one of them).
+  The rows of all such calls of a history are drawn from one small pool, so the SAME protein sets are looked up again
+  after the collection changed and was re-indexed, on the other collection, and while the index is stale.
 After every call the state of EVERY collection is compared with the model, and the oracle judges every
 lookup against a linear scan of the groups of the collection it was asked of and flags any change of any
 collection by a reader.
@@ -53,6 +72,9 @@ CHECKED = {"group", "idx", "idxs", "groups"}  # carry an explicit check_idx_vali
 # the package's READERS of a collection: must leave it exactly as it is (model: no-op step `Op.read`)
 READERS = {"rows", "compete", "collect", "report", "quant"}
 READERS_USING_INDEX = {"collect", "report", "quant"}  # look proteins up: fail loudly while the flag is down
+# the package's LOOKUP CALLERS: look up the groups of external rows in the collection they are handed (model: `Op.rows`)
+ROWCALLERS = {"psm_update", "fp_quant", "fp_ion", "sage_quant", "sage_lfq", "mq_quant", "collect_rows", "annot"}
+QUANT_CALLERS = ROWCALLERS - {"psm_update", "annot"}
 SCORE_CUTOFF = 0.01
 
 
@@ -257,6 +279,257 @@ def apply_reader(colls, c, op, scratch):
     raise ValueError("unknown op %r" % (op,))
 
 
+def _mq_effective(row):
+    """what `parsers.psm.get_peptide_to_protein_mapper` (no remapping) leaves of a row of evidence.txt: decoy proteins
+    are dropped from a row that has a protein which is not a decoy (own statement of
+    helpers.remove_decoy_proteins_from_target_peptides)"""
+    all_decoy = all("REV__" in p for p in row) or all("rev_" in p for p in row)
+    if all_decoy:
+        return list(row)
+    return [p for p in row if not (p.startswith("REV__") or p.startswith("rev_"))]
+
+
+def effective_rows(op):
+    """the protein lists the caller looks up, in file order"""
+    if op[0] == "mq_quant":
+        return [_mq_effective(r) for r in op[1]]
+    return [list(r) for r in op[1]]
+
+
+def _write_tsv(path, header, rows):
+    import csv
+
+    with open(path, "w", newline="") as f:
+        w = csv.writer(f, delimiter="\t")
+        w.writerow(header)
+        for r in rows:
+            w.writerow(r)
+
+
+PSM_HEADER = ["Spectrum", "Peptide", "Modified Peptide", "Charge", "PeptideProphet Probability", "Assigned Modifications",
+              "Observed Modifications", "Protein", "Protein ID", "Entry Name", "Gene", "Protein Description", "Mapped Genes",
+              "Mapped Proteins"]
+
+
+def _pep(t):
+    return "PEPTIDE%dK" % t
+
+
+def _attachments(n_rows, holders):
+    """per row: where its peptide ended up; `holders` = per result position the peptides attached there"""
+    out = []
+    for t in range(n_rows):
+        pos = [i for i, peps in enumerate(holders) if _pep(t) in peps]
+        out.append("dropped" if not pos else ["attached", pos[0]] if len(pos) == 1 else ["attached_many", pos])
+    return out
+
+
+def apply_rows(colls, c, op, scratch, n):
+    """one of the package's lookup callers, called for real with collection c and a rendered file of the rows"""
+    import csv
+    import os
+    import tempfile
+
+    from picked_group_fdr import columns, results
+    from picked_group_fdr.scoring_strategy import ProteinScoringStrategy
+
+    pg, k, rows, v = colls[c], op[0], [list(r) for r in op[1]], int(op[2])
+    groups = [list(g) for g in pg.protein_groups]
+    suppress = True
+
+    def fresh_results():
+        return results.ProteinGroupResults(
+            [results.ProteinGroupResult(proteinIds=";".join(g), majorityProteinIds=";".join(g), numberOfProteins=len(g))
+             for g in groups])
+
+    def holders(pgrs):
+        return [{q.peptide for q in pgr.precursorQuants} for pgr in pgrs]
+
+    if not scratch:
+        scratch.append(tempfile.mkdtemp(prefix="c20_"))
+    d = os.path.join(scratch[0], "step%d" % n)
+    os.makedirs(os.path.join(d, "exp1"))
+    psm = os.path.join(d, "exp1", "psm.tsv")
+    try:
+        if k in ("psm_update", "fp_quant"):
+            _write_tsv(psm, PSM_HEADER, [["s%d" % t, _pep(t), "", "2", "0.999", "", "", r[0], "", "", "", "", "", ", ".join(r[1:])]
+                                         for t, r in enumerate(rows)])
+        if k == "psm_update":
+            from picked_group_fdr.pipeline import update_fragpipe_results as ufr
+
+            out_folder = os.path.join(d, "out") if v & 1 else None
+            out_file = ufr.update_fragpipe_psm_file(psm, pg, {}, output_folder=out_folder,
+                                                    suppress_missing_peptide_warning=suppress)
+            with open(out_file, newline="") as f:
+                rd = csv.reader(f, delimiter="\t")
+                header = next(rd)
+                sc, pc = header.index("Spectrum"), header.index("Protein")
+                written = {}
+                for row in rd:
+                    written.setdefault(row[sc], []).append(row[pc])
+            ans = []
+            for t in range(len(rows)):
+                w = written.get("s%d" % t)
+                ans.append("dropped" if w is None else ["written", w[0]] if len(w) == 1 else ["written_many", w])
+            return {"rows": ans}
+        if k == "fp_quant":
+            from picked_group_fdr.quant import fragpipe as qf
+
+            pgrs = fresh_results()
+            if v & 2:
+                qf.add_precursor_quants_multiple([psm], None, pg, pgrs, None, None, True,
+                                                 ProteinScoringStrategy("no_remap bestPEP"), suppress)
+            else:
+                qf.add_precursor_quants(psm, pgrs, pg, "exp1", True, suppress)
+            return {"rows": _attachments(len(rows), holders(pgrs))}
+        if k == "fp_ion":
+            from picked_group_fdr.quant import fragpipe as qf
+
+            path = os.path.join(d, "combined_ion.tsv")
+            _write_tsv(path, ["Peptide Sequence", "Modified Sequence", "Charge", "Protein", "Mapped Proteins",
+                              "Assigned Modifications", "exp1 Intensity"],
+                       [[_pep(t), "", "2", r[0], ", ".join(r[1:]), "", "100.0"] for t, r in enumerate(rows)])
+            pgrs = fresh_results()
+            if v & 2:
+                qf.update_precursor_quants(pgrs, pg, [path], True, suppress)
+            else:
+                qf.update_precursor_quants_single(pgrs, pg, path, True, suppress)
+            return {"rows": _attachments(len(rows), holders(pgrs))}
+        if k == "sage_quant":
+            from picked_group_fdr.quant import sage as qs
+
+            path = os.path.join(d, "results.sage.tsv")
+            _write_tsv(path, ["peptide", "proteins", "filename", "charge", "sage_discriminant_score", "posterior_error"],
+                       [[_pep(t), ";".join(r), "run1.mzML", "2", "1.0", "-3.0"] for t, r in enumerate(rows)])
+            pgrs = fresh_results()
+            qs.add_precursor_quants(path, pgrs, pg, None, True, suppress)
+            return {"rows": _attachments(len(rows), holders(pgrs))}
+        if k == "sage_lfq":
+            from picked_group_fdr.quant import sage as qs
+
+            path = os.path.join(d, "lfq.tsv")
+            _write_tsv(path, ["peptide", "charge", "proteins", "q_value", "score", "spectral_angle", "run1.mzML"],
+                       [[_pep(t), "2", ";".join(r), "0.001", "1.0", "0.9", "100.0"] for t, r in enumerate(rows)])
+            pgrs = fresh_results()
+            if v & 2:
+                qs.update_precursor_quants(pgrs, pg, [path], None, True, suppress)
+            else:
+                qs.update_precursor_quants_single(pgrs, pg, path, None, True, suppress)
+            return {"rows": _attachments(len(rows), holders(pgrs))}
+        if k == "mq_quant":
+            path = os.path.join(d, "evidence.txt")
+            _write_tsv(path, ["Modified sequence", "Leading proteins", "Leading razor protein", "PEP", "Score", "Experiment",
+                              "Charge", "Intensity", "Raw file", "id"],
+                       [["_" + _pep(t) + "_", ";".join(r), r[0], "0.001", "10", "E1", "2", "100", "raw1", t]
+                        for t, r in enumerate(rows)])
+            score_type = ProteinScoringStrategy("no_remap bestPEP")
+            pgrs = fresh_results()
+            score_type.get_quantification_parser()(
+                [path], [path], pg, pgrs, [None], None, True, score_type=score_type, suppress_missing_peptide_warning=suppress)
+            return {"rows": _attachments(len(rows), holders(pgrs))}
+        if k == "collect_rows":
+            infos = ProteinScoringStrategy("bestPEP").collect_peptide_scores_per_protein(
+                pg, {_pep(t): (0.001, list(r)) for t, r in enumerate(rows)}, 0.01, suppress_missing_protein_warning=True)
+            return {"rows": _attachments(len(rows), [{x[1] for x in lst} for lst in infos])}
+        if k == "annot":
+            pgrs = results.ProteinGroupResults([results.ProteinGroupResult(proteinIds=";".join(r)) for r in rows])
+            columns.FragpipeProteinAnnotationsColumns(pg, {}).append_columns(pgrs, 0.01)
+            return {"rows": [["leader", pgr.extraColumns[0]] for pgr in pgrs]}
+    except Exception as e:
+        return _err(e)
+    raise ValueError("unknown op %r" % (op,))
+
+
+# ---------------------------------------------------------------- one history = one process lifetime
+_PKG_MODULES = [
+    "picked_group_fdr.protein_groups", "picked_group_fdr.helpers", "picked_group_fdr.grouping", "picked_group_fdr.graphs",
+    "picked_group_fdr.results", "picked_group_fdr.competition", "picked_group_fdr.scoring_strategy", "picked_group_fdr.columns",
+    "picked_group_fdr.quant.maxquant", "picked_group_fdr.quant.fragpipe", "picked_group_fdr.quant.sage",
+    "picked_group_fdr.parsers.fragpipe", "picked_group_fdr.parsers.sage", "picked_group_fdr.parsers.maxquant",
+    "picked_group_fdr.parsers.psm", "picked_group_fdr.pipeline.update_fragpipe_results",
+]
+_CONTAINER_TYPES = None
+_PRISTINE = {}  # (id(owner), name, slot) -> (container object, copy of its pristine contents)
+
+
+def _package_containers():
+    """every module-level, class-level and function-level (mutable default / function attribute) container of the
+    loaded package modules, and every memoising wrapper (`functools.lru_cache`)"""
+    import inspect
+    import sys
+    import types
+
+    for mname, mod in list(sys.modules.items()):
+        if mod is None or not (mname == "picked_group_fdr" or mname.startswith("picked_group_fdr.")):
+            continue
+        owners = [mod] + [v for v in list(vars(mod).values()) if inspect.isclass(v) and getattr(v, "__module__", None) == mname]
+        for owner in owners:
+            for name, val in list(vars(owner).items()):
+                if name.startswith("__") and name.endswith("__"):
+                    continue
+                yield owner, name, "", val
+                fn = val.__func__ if isinstance(val, (staticmethod, classmethod)) else val
+                if isinstance(fn, types.FunctionType) and getattr(fn, "__module__", None) == mname:
+                    for i, dv in enumerate(fn.__defaults__ or ()):
+                        yield fn, name, "default%d" % i, dv
+                    for kn, dv in (fn.__kwdefaults__ or {}).items():
+                        yield fn, name, "kwdefault:" + kn, dv
+                    for an, av in list(vars(fn).items()):
+                        yield fn, name, "attr:" + an, av
+
+
+def fresh_process():
+    """A history stands for ONE process lifetime: state the package keeps outside the objects of the history (module-level
+    or class-level containers, mutable default arguments, function attributes, lru_cache wrappers) must not leak from one
+    case into the next, or a failing history would not replay on its own.  All modules the harness calls are imported
+    first; the contents of every such container are recorded when it is first seen and put back (in place) at the start
+    of every later case."""
+    global _CONTAINER_TYPES
+    import collections
+    import copy
+    import importlib
+
+    for m in _PKG_MODULES:
+        importlib.import_module(m)
+    if _CONTAINER_TYPES is None:
+        _CONTAINER_TYPES = (dict, list, set, collections.OrderedDict, collections.defaultdict, collections.deque, collections.Counter)
+    for owner, name, slot, val in _package_containers():
+        if callable(getattr(val, "cache_clear", None)):
+            val.cache_clear()
+            continue
+        if type(val) not in _CONTAINER_TYPES:
+            continue
+        key = (id(owner), name, slot)
+        known = _PRISTINE.get(key)
+        if known is None or known[0] is not val:
+            if known is not None and slot == "":
+                # the name was rebound to another container: bind it to the recorded object again
+                setattr(owner, name, known[0])
+                val = known[0]
+            else:
+                try:
+                    snap = copy.deepcopy(val)
+                except Exception:
+                    snap = copy.copy(val)
+                _PRISTINE[key] = (val, snap)
+                continue
+        obj, snap = _PRISTINE[key]
+        if obj == snap:
+            continue
+        try:
+            content = copy.deepcopy(snap)
+        except Exception:
+            content = copy.copy(snap)
+        if isinstance(obj, (dict, set)):
+            obj.clear()
+            obj.update(content)
+        elif isinstance(obj, collections.deque):
+            obj.clear()
+            obj.extend(content)
+        else:
+            obj[:] = content
+
+
 def apply_op(pg, op):
     """one call on the real object -> JSON-able view of what the caller sees"""
     from picked_group_fdr import helpers
@@ -326,6 +599,23 @@ def canon_out(o):
     return o
 
 
+def resolve_leaders(model_out, impl_o):
+    """`append_columns` annotates a row with the first protein of the first group of a list built from a Python SET: the
+    model answers with the leaders of all groups the row hits; the implementation's choice is accepted when it is one
+    of them (then the model's entry is shown as that choice)"""
+    if not (isinstance(model_out, dict) and "rows" in model_out):
+        return model_out
+    impl_rows = impl_o.get("rows") if isinstance(impl_o, dict) else None
+    out = []
+    for t, a in enumerate(model_out["rows"]):
+        if isinstance(a, list) and a and a[0] == "leaders":
+            b = impl_rows[t] if isinstance(impl_rows, list) and t < len(impl_rows) else None
+            if isinstance(b, list) and len(b) == 2 and b[0] == "leader" and b[1] in a[1]:
+                a = ["leader", b[1]]
+        out.append(a)
+    return {"rows": out}
+
+
 class P(Prop):
     id = "C20"
     quick_cases = 2000
@@ -339,7 +629,10 @@ class P(Prop):
         "ConnectedProteinGraphs.get_connected_proteins / decouple_connected_proteins over star components) and the package's "
         "READERS of a collection (ProteinGroupResults.from_protein_groups, do_competition of the three strategies, "
         "collect_peptide_scores_per_protein, the three chained as in get_protein_group_results, add_precursor_quants; evidence "
-        "generated from the current groups, keep_all_proteins on/off) interleaved with "
+        "generated from the current groups, keep_all_proteins on/off) and the package's LOOKUP CALLERS on rendered files of "
+        "0-6 external rows drawn from one pool of 3-6 protein sets per history (update_fragpipe_psm_file, quant.fragpipe / "
+        "quant.sage / quant.maxquant add_precursor_quants and update_precursor_quants_single, "
+        "collect_peptide_scores_per_protein, FragpipeProteinAnnotationsColumns.append_columns) interleaved with "
         "get_protein_group, _get_protein_group_idx, get_protein_group_idxs, get_protein_groups, get_leading_proteins, "
         "is_missing / is_shared (on index sets and on group lists, as the callers do), size, get_all_proteins; 6 inside + 2 "
         "never-added proteins (+ their OBSOLETE__ forms); empty groups, repeated proteins and merges on unknown or co-located "
@@ -364,7 +657,7 @@ class P(Prop):
                 out.append(rng.choice(INSIDE))
         return out
 
-    def _gen_op(self, rng, present, ncoll=1, c=0, can_update_last=False):
+    def _gen_op(self, rng, present, ncoll=1, c=0, can_update_last=False, row_pool=None):
         r = rng.random()
         fresh = [p for p in INSIDE if p not in present]
         if r < 0.40:  # mutators
@@ -411,7 +704,17 @@ class P(Prop):
                 return ["merge", rng.choice(pool), rng.choice(pool)]
             gs = [rng.sample(INSIDE, rng.choice([0, 1, 1, 2])) for _ in range(rng.choice([0, 1, 2, 3]))]
             return ["unseen", gs]
-        if r < 0.52:  # the package's readers of a collection
+        if r < 0.64 and r >= 0.50:  # the package's lookup callers: rows from the history's pool (+ now and then a new row)
+            k = rng.choice(["psm_update", "psm_update", "psm_update", "fp_quant", "fp_ion", "sage_quant", "sage_lfq",
+                            "mq_quant", "collect_rows", "annot"])
+            pool = row_pool or [[p] for p in INSIDE[:3]]
+            rows = [list(rng.choice(pool)) for _ in range(rng.choice([0, 1, 2, 3, 3, 4, 6]))]
+            if rows and rng.random() < 0.2:
+                rows[rng.randrange(len(rows))] = self._prots(rng, 1, 3, present)
+            if k == "annot" and rng.random() < 0.7:  # result rows usually name proteins of the collection
+                rows = [r for r in rows if any(p in present for p in r)]
+            return [k, rows, rng.choice([0, 1, 2, 3])]
+        if r < 0.50:  # the package's readers of a collection
             k = rng.choice(["rows", "rows", "compete", "collect", "report", "report", "report", "quant"])
             v = rng.choice([0, 0, 1, 2, 3, 5, 8, 13, 21])
             strategy = rng.choice(["classic", "picked", "picked_group", "picked_group"])
@@ -456,10 +759,18 @@ class P(Prop):
                 present.append(set())
         ops = []
         reindex = rng.choice([0.0, 0.3, 0.6, 0.9])  # how often a caller re-indexes right after a change
+        # the protein sets of the external rows of this history: the same sets are looked up again and again
+        universe = INSIDE + OUTSIDE
+        row_pool = []
+        for _ in range(rng.randint(3, 6)):
+            row = rng.sample(universe if rng.random() < 0.3 else INSIDE, rng.choice([1, 1, 1, 2, 2, 3]))
+            if rng.random() < 0.1:
+                row[0] = "OBSOLETE__" + row[0]
+            row_pool.append(row)
         have_obs = False  # the grouping object remembers obsolete groups of the last merge_with_rescued_protein_groups
         for _ in range(n):
             c = rng.randrange(ncoll)
-            op = self._gen_op(rng, sorted(present[c]), ncoll, c, have_obs)
+            op = self._gen_op(rng, sorted(present[c]), ncoll, c, have_obs, row_pool)
             ops.append([c] + op)
             k = op[0]
             if k in ("append", "extend", "merge", "rescue_update", "rescue_update_last") and rng.random() < reindex:
@@ -486,6 +797,7 @@ class P(Prop):
             ["groups", ["A", "X"], True], ["groups", ["X"], True], ["missing_groups", ["X"]], ["lead", ["B"]],
             ["rescue_update", [["OBSOLETE__A"]]], ["connected", [["B", "A"]], False], ["idxs", ["OBSOLETE__A"], True],
             ["report", "picked_group", False, 0],
+            ["psm_update", [["A"], ["B"], ["A", "B"], ["B", "X"]], 1], ["sage_quant", [["A"], ["B", "A"], ["X"]], 0],
         ]
         out = []
         for n in range(1, 5):
@@ -493,7 +805,8 @@ class P(Prop):
                 out.append({"colls": [{"init": None, "from_list": False}], "ops": [[0] + list(o) for o in seq]})
         # two collections, one call each per step: every history of length <= 3 over a small tagged alphabet
         beta = [[c] + o for c in (0, 1) for o in (["index"], ["append", ["A"]], ["group", "A", True], ["idxs", ["B"], True])] + [
-            [0, "unseen_from", 1], [0, "rescue_update_last"]]
+            [0, "unseen_from", 1], [0, "rescue_update_last"], [0, "psm_update", [["A"], ["B"], ["A", "B"]], 0],
+            [1, "psm_update", [["A"], ["B"], ["A", "B"]], 0], [1, "merge", "B", "A"]]
         for n in range(1, 4):
             for seq in itertools.product(beta, repeat=n):
                 out.append({"colls": [{"init": [["A"], ["B"]], "from_list": True}, {"init": [["B"], ["A"]], "from_list": False}],
@@ -506,6 +819,7 @@ class P(Prop):
         from picked_group_fdr.protein_groups import ProteinGroups
 
         case = norm(case)
+        fresh_process()
         colls = []
         for spec in case["colls"]:
             if spec.get("init") is None:
@@ -526,6 +840,8 @@ class P(Prop):
                     out = apply_caller(colls, g, c, op)
                 elif op[0] in READERS:
                     out = apply_reader(colls, c, op, scratch)
+                elif op[0] in ROWCALLERS:
+                    out = apply_rows(colls, c, op, scratch, len(steps))
                 else:
                     out = apply_op(colls[c], op)
                 steps.append({"out": out, "states": [_state(pg) for pg in colls]})
@@ -543,6 +859,8 @@ class P(Prop):
         for top in case["ops"]:
             if top[1] == "connected":  # the callers iterate over the SORTED protein nodes of a component
                 top = [top[0], "connected", [sorted(comp) for comp in top[2]], bool(top[3])]
+            elif top[1] in ROWCALLERS:  # the protein lists the caller looks up (evidence.txt: after the parser's decoy filter)
+                top = [top[0], top[1], effective_rows(top[1:]), top[3]]
             ops.append(top)
         return {"op": "pg2", "colls": [{"init": s.get("init"), "from_list": bool(s.get("from_list"))} for s in case["colls"]],
                 "ops": ops}
@@ -550,11 +868,12 @@ class P(Prop):
     def model_view(self, case, resp, impl_out):
         if "steps" not in resp:
             return resp
+        impl_steps = impl_out.get("steps", []) if isinstance(impl_out, dict) else []
         return {
             "steps": [
-                {"out": canon_out(s["out"]),
+                {"out": resolve_leaders(canon_out(s["out"]), impl_steps[n]["out"] if n < len(impl_steps) else None),
                  "states": [{"groups": t["groups"], "valid": t["valid"], "index": sorted(t["index"])} for t in s["states"]]}
-                for s in resp["steps"]
+                for n, s in enumerate(resp["steps"])
             ]
         }
 
@@ -588,6 +907,74 @@ class P(Prop):
             unique = all(len(v) == 1 for v in where.values())
             tag = "step %d %r: " % (n, top)
             failed = isinstance(out, dict) and "err" in out
+            if k in ROWCALLERS:
+                # a lookup caller must leave EVERY live collection exactly as it was, and what it does with each row must
+                # follow from the groups that CURRENTLY hold the row's proteins in the collection it was handed
+                prev = impl_out["steps"][n - 1]["states"] if n > 0 else impl_out["_rec"].get("init_states")
+                if prev is not None:
+                    for d, before in enumerate(prev):
+                        after = st["states"][d]
+                        if after != before:
+                            what = "groups" if after["groups"] != before["groups"] else "flag" if after["valid"] != before["valid"] else "index"
+                            return tag + "the lookup caller changed the %s of collection %d: %r before, %r after" % (
+                                what, d, before[what], after[what])
+                rows = effective_rows(op)
+                if failed:
+                    e = out["err"]
+                    if e == "invalid_index":
+                        if fresh[c]:
+                            return tag + "failed with 'index is invalid' although the index was rebuilt after the last change"
+                        continue
+                    if e == "index_error" and k == "annot" and any(not any(p in where for p in r) for r in rows):
+                        continue  # `[][0]`: a result row none of whose proteins is in a group
+                    return tag + "raised %s" % e
+                if not (isinstance(out, dict) and isinstance(out.get("rows"), list) and len(out["rows"]) == len(rows)):
+                    return tag + "answer %r does not have one entry per row" % (out,)
+                for t, (r, a) in enumerate(zip(rows, out["rows"])):
+                    rtag = tag + "row %d %r: " % (t, r)
+                    present = [p for p in r if p in where]
+                    absent = [p for p in r if p not in where]
+                    hit = sorted({i for p in present for i in where[p]})
+                    kind = a if isinstance(a, str) else a[0]
+                    if kind in ("written_many", "attached_many"):
+                        return rtag + "the row was written / attached more than once: %r" % (a,)
+                    if kind == "written":
+                        lead = a[1]
+                        if lead not in r:
+                            return rtag + "written with the leading protein %r, which is not a protein of the row" % lead
+                        if not any(groups[i] and groups[i][0] == lead for i in hit):
+                            return rtag + "written with the leading protein %r, but the current group(s) of its proteins are %r" % (
+                                lead, [groups[i] for i in hit])
+                        if unique and len(hit) > 1:
+                            return rtag + "written although its proteins are in %d current groups %r (shared)" % (
+                                len(hit), [groups[i] for i in hit])
+                    elif kind == "attached":
+                        i = a[1]
+                        if not (0 <= i < len(groups)):
+                            return rtag + "attached to position %r outside the collection" % i
+                        if i not in hit:
+                            return rtag + "attached to position %d (%r), which holds none of its proteins" % (i, groups[i])
+                        if absent:
+                            return rtag + "attached to position %d although %r is in no group" % (i, absent)
+                        if unique and hit != [i]:
+                            return rtag + "attached to position %d although its proteins are in the groups at %r" % (i, hit)
+                    elif kind == "leader":
+                        if not any(groups[i] and groups[i][0] == a[1] for i in hit):
+                            return rtag + "annotated with %r, but the current group(s) of its proteins are %r" % (
+                                a[1], [groups[i] for i in hit])
+                    elif kind == "dropped":
+                        if not unique or not r:
+                            continue
+                        if k == "psm_update":
+                            if len(hit) == 1 and groups[hit[0]][0] in r:
+                                return rtag + "dropped although its proteins are in the one current group %r whose leader is a protein of the row" % (
+                                    groups[hit[0]],)
+                        elif not absent and len(hit) == 1:
+                            return rtag + "attached nowhere although all its proteins are in the one current group %r at position %d" % (
+                                groups[hit[0]], hit[0])
+                    else:
+                        return rtag + "unknown answer %r" % (a,)
+                continue
             if k in READERS:
                 # a reader must leave EVERY live collection exactly as it was (groups, flag, index); it may fail only
                 # loudly with 'index is invalid', only when it uses the index, only while the index is stale
@@ -717,11 +1104,28 @@ class P(Prop):
         if not isinstance(impl_out, dict) or "steps" not in impl_out:
             return f + ["no-steps"]
         touched = set()
+        seen_rows, nmut = {}, 0  # protein set -> number of mutator calls when a lookup caller last looked it up
         for top, s in zip(case["ops"], impl_out["steps"]):
             op = top[1:]
             o = s["out"]
             if op[0] in MUTATORS:
                 touched.add(top[0])
+                nmut += 1
+            if op[0] in ROWCALLERS:
+                answered = isinstance(o, dict) and "rows" in o
+                for r in effective_rows(op):
+                    key = tuple(r)
+                    if key in seen_rows and answered:
+                        f.append("rowcall:protein-set-looked-up-again")
+                        if seen_rows[key][0] < nmut:
+                            f.append("rowcall:protein-set-looked-up-again-after-a-change")
+                        if seen_rows[key][1] != top[0]:
+                            f.append("rowcall:protein-set-looked-up-on-another-collection")
+                    if answered:
+                        seen_rows[key] = (nmut, top[0])
+                if answered:
+                    for a in o["rows"]:
+                        f.append("rowcall:%s" % (a if isinstance(a, str) else a[0]))
             if isinstance(o, dict) and "err" in o:
                 f.append("%s:%s" % (op[0], o["err"]))
             else:
